@@ -152,6 +152,14 @@ INFO = {
              "of every returned entry.",
         note="Template algebra of five part kinds; SGR sequences only.",
         ref="6/C07"),
+    "C18": dict(
+        text="TLC shows on the design that the joined state, the merge input slice and the grouping key do not depend on the completion "
+             "order / materialisation order; then every completion order for 2..4 (quick) / 2..5 (thorough) containers is forced on the "
+             "real code through the gated fake daemon, repeated to sample map orders, for log and metric queries, under the Go race "
+             "detector, and once more through renderResult; TLC validates that all runs of a scenario are identical (results, outcome, "
+             "rendered bytes) and any race report is a violation.",
+        note="Schedules are forced at the ContainerLogs boundary; finer interleavings only as observed by -race.",
+        ref="6/C18"),
 }
 
 NOT_YET = "no check registered yet in this revision (machinery under construction; see DESIGN.md section 6 for the planned model)"
